@@ -66,11 +66,20 @@ def call(m, x):
     return m(*x) if isinstance(x, tuple) else m(x)
 
 
+USER = {}      # id(wrapper) is not stable across copies: the user's model travels in the wrapper's __dict__
+
+
 def _build(cfg):
     arch = cfg.get('arch', 'base')
-    if arch != 'base':
-        return _build_zoo(cfg, arch)
-    return _build_base(cfg)
+    m, x = _build_zoo(cfg, arch) if arch != 'base' else _build_base(cfg)
+    return m, x
+
+
+def remember_user_model(m, net):
+    """the model the user handed to the NAS wrapper: it shares its non-converted layers with the seed (and with every export).
+    Stored outside the module registry (no effect on state_dict / named_modules); deep copies copy it consistently."""
+    m.__dict__['_c18_user_model'] = net
+    return m
 
 
 def _build_zoo(cfg, arch):
@@ -110,7 +119,38 @@ def _build_zoo(cfg, arch):
             m.seed.conv0.timestep_masker.beta.copy_(torch.tensor([0., 0., 0., 0., 1., 1., 1., 1., 1.]))
             m.seed.conv1.dilation_masker.gamma.copy_(torch.tensor([0., 1., 1.]))
         x = torch.randn(2, 3, 20, generator=g)
-        return m, x
+        return remember_user_model(m, net), x
+    if arch == 'tcn1d':
+        # MPS folds Conv2d+BN2d and Linear+BN1d only: these BatchNorm1d layers stay in the NAS model as plain layers shared
+        # with the user's model (and with every export)
+        from plinio.methods import MPS
+        from plinio.methods.mps import get_default_qinfo
+
+        class TCN1d(nn.Module):
+            def __init__(s):
+                super().__init__()
+                s.conv0 = nn.Conv1d(3, 4, 3, padding=1)
+                s.bn0 = nn.BatchNorm1d(4)
+                s.relu0 = nn.ReLU()
+                s.conv1 = nn.Conv1d(4, 4, 3, padding=1)
+                s.bn1 = nn.BatchNorm1d(4)
+                s.relu1 = nn.ReLU()
+                s.pool = nn.AdaptiveAvgPool1d(1)
+                s.fc = nn.Linear(4, 3)
+
+            def forward(s, x):
+                x = s.relu0(s.bn0(s.conv0(x)))
+                x = s.relu1(s.bn1(s.conv1(x)))
+                return s.fc(s.pool(x).flatten(1))
+        net = TCN1d()
+        net.train(cfg['train'])
+        m = MPS(net, input_shape=(3, 12), cost=sp, full_cost=cfg['full_cost'], gumbel_softmax=cfg['gumbel'],
+                qinfo=get_default_qinfo(w_precision=(2, 4, 8), a_precision=(4, 8)))
+        with torch.no_grad():
+            for _, q in m.named_nas_parameters():
+                q.copy_(torch.rand(q.shape))
+        x = torch.rand(3, 3, 12, generator=g)
+        return remember_user_model(m, net), x
     if arch == 'fusion':
         class Fusion(nn.Module):
             def __init__(s):
@@ -143,7 +183,7 @@ def _build_zoo(cfg, arch):
             with torch.no_grad():
                 for _, q in m.named_nas_parameters():
                     q.copy_(torch.rand(q.shape))
-        return m, (a, b)
+        return remember_user_model(m, net), (a, b)
     raise ValueError(arch)
 
 
@@ -196,7 +236,7 @@ def _build_base(cfg):
                 q.copy_(torch.rand(q.shape) * 2)
     g = torch.Generator().manual_seed(7)
     x = torch.randn(2, 3, 6, 6, generator=g)
-    return m, x
+    return remember_user_model(m, net), x
 
 
 # ----------------------------------------------------------------------------- hashing
@@ -279,6 +319,15 @@ def attrs(m):
     return out
 
 
+def user_model_fp(m):
+    """everything observable on the user's own model: tensors (bitwise), flags, requires_grad, plain attributes"""
+    net = m.__dict__.get('_c18_user_model')
+    if net is None:
+        return None
+    return hj([[(k, th(v)) for k, v in net.state_dict().items()], [(n, mod.training) for n, mod in net.named_modules()],
+               [(k, p.requires_grad, p.grad is None) for k, p in net.named_parameters()], attrs(net)])
+
+
 def flags(m, cfg):
     fl = [(n, mod.training) for n, mod in m.named_modules()]
     sub = {id(mod) for mod in sub_modules(m, cfg)}
@@ -344,7 +393,10 @@ def fingerprint(m, x, deep=True, cfg=None):
         'flags': hj(fl),
         'theta': hj(thetas(m)),
         'rng': rng_hash(),
-        'reqgrad': hj([(k, p.requires_grad) for k, p in m.named_parameters()]),
+        'reqgrad': hj([(k, p.requires_grad) for k, p in m.named_parameters(remove_duplicate=False)]),
+        'reqgrad_v': sorted(k for k, p in m.named_parameters(remove_duplicate=False) if not p.requires_grad),
+        'grads': hj([(k, p.grad is None) for k, p in m.named_parameters(remove_duplicate=False)]),
+        'user_model': user_model_fp(m),
         'sampling': hj(sampling(m)),
         'attrs': hj(attrs(m)),
         'attrs_v': ['%s.%s=%s' % t for t in attrs(m)],
@@ -393,6 +445,9 @@ def apply_op(m, x, op, method):
             return 'ok'
         if op.startswith('opts:'):
             m.update_softmax_options(**OPTS[op.split(':')[1]])
+            return 'ok'
+        if op in ('train_nas_only', 'train_net_only', 'train_net_and_nas'):
+            getattr(m, op)()
             return 'ok'
         if op == 'flip_sub':
             for mod in sub_modules(m, CUR['cfg']):
